@@ -768,6 +768,11 @@ package weshnet
 //@   havocall
 //@   modifies herrs
 //@   ensures [C20.restore.abort-on-error] ret0 == nil ==> herrs == old(herrs)
+//@   # which built-in handlers the driver installs: the post-processing step that imports the keys works on the
+//@   # caller's database (with C20.keys.import / C20.keys.missing of restoreKeys$1 and abort-on-error: a restore that
+//@   # reports success ran an import that saw both key files), and the two key readers are keyed by the two file names
+//@   at (*restoreAccountState).restoreKeys requires [C20.restore.installs-import] odb == caller_odb
+//@   at (*restoreAccountState).readKey requires [C20.restore.installs-keyreaders] keyName == "account.key" || keyName == "account_proof.key"
 //@   # (`handlers` names the parameter: the list iterated is the five built-in handlers followed by it)
 //@   loop 0 invariant herrs == old(herrs) && logger != nil
 //@   loop 1 invariant herrs == old(herrs) && logger != nil && -1 <= rangeindex && rangeindex < 5 + len(handlers)
